@@ -25,13 +25,17 @@ def one(job):
     try:
         env = dict(os.environ, SSL_REPO=d, SSL_OUT=o, SSL_WORKER="-w%d" % (n % WORKERS))
         bad = []
+        closed = []
         for p in props:
             c = subprocess.run([os.path.join(V, "check"), p, "--tier", "quick"], env=env, stdout=subprocess.PIPE, stderr=subprocess.STDOUT, text=True)
             keys = [l.strip() for l in c.stdout.splitlines() if l.strip().startswith("key:")]
             hit = c.returncode == 1 and (key is None and keys or any(key in k for k in keys))
+            if not hit and key is None and c.returncode == 1 and "CHECK CANNOT DECIDE" in c.stdout and "VIOLATION property=" in c.stdout:
+                hit = True      # reported fail-closed: the change outgrew the reviewed model (an anchor / floor no longer holds)
+                closed.append(p)
             if not hit:
                 bad.append(p)
-        return "%-60s %s" % (os.path.relpath(patch, V), "ok" if not bad else "MISSED by " + ",".join(bad)), len(bad)
+        return "%-60s %s" % (os.path.relpath(patch, V), ("ok" + (" (fail-closed: %s)" % ",".join(closed) if closed else "")) if not bad else "MISSED by " + ",".join(bad)), len(bad)
     finally:
         shutil.rmtree(d, ignore_errors=True); shutil.rmtree(o, ignore_errors=True)
 
